@@ -583,3 +583,20 @@ mod unit_tests {
         check_fft_algorithm::<T>(&fft, len, direction);
     }
 }
+
+// Verification hook H3 (only compiled with `--cfg rustfft_verif`): one call of the private `VectorizedMultiplyMod`,
+// all four lanes loaded with `a`. Returns (b, divisor, intermediate) of lane 0 and the four result lanes. Add-only.
+#[cfg(rustfft_verif)]
+pub(crate) fn verif_mul_rem(a: u64, b: u32, divisor: u32) -> Option<([u64; 3], [u64; 4])> {
+    if !(std::is_x86_feature_detected!("avx2") && std::is_x86_feature_detected!("avx")) {
+        return None;
+    }
+    #[target_feature(enable = "avx", enable = "avx2")]
+    unsafe fn inner(a: u64, b: u32, divisor: u32) -> ([u64; 3], [u64; 4]) {
+        let m = VectorizedMultiplyMod::new(b, divisor);
+        let r = m.mul_rem(_mm256_set1_epi64x(a as i64));
+        let lanes = |v: __m256i| -> [u64; 4] { std::mem::transmute(v) };
+        ([lanes(m.b)[0], lanes(m.divisor)[0], lanes(m.intermediate)[0]], lanes(r))
+    }
+    Some(unsafe { inner(a, b, divisor) })
+}
